@@ -24,6 +24,42 @@ DS = 'dns_sector::DNSSector'
 DRIVERS = {DS + '::parse', DS + '::parse_opt'}
 
 
+def _slice_arg_bound(facts, key, limit=255):
+    """largest length (<= limit) of the slice arguments handed to `key` over all its call sites, by E4 probes in each caller; None when
+    some call site has no constant bound within the limit"""
+    callers = set()
+    for ck, cf in facts.fns.items():
+        for _, b in F.blocks(cf):
+            t = b['term']
+            if t['k'] == 'call' and key in facts.callee_keys(cf, t):
+                callers.add(ck)
+    if not callers:
+        return None
+    worst = 0
+    for ck in sorted(callers):
+        e4c = E4(facts, probes=[(key.split('::', 1)[-1] if '::' in key else key, ck)], budget_s=200)
+        try:
+            e4c.summarize(ck)
+        except Exception:  # noqa
+            return None
+        seen = False
+        for p in e4c.probes():
+            if p.get('kind') != 'call' or p['fn'] != ck or not (p['callee'] == key or p['callee'].endswith(key.split('::', 1)[-1])):
+                continue
+            lens = [v for v in (p.get('lens') or {}).values() if v is not None]
+            if not lens:
+                return None
+            for ln in lens:
+                lo, hi = p['C'].bounds(ln)
+                if hi is None or hi > limit:
+                    return None
+                worst = max(worst, hi)
+            seen = True
+        if not seen:
+            return None
+    return worst
+
+
 def run(ctx):
     # both arithmetic semantics on every run: with overflow checks a counter's own type range "bounds" a loop (the check panics
     # first); without them it wraps, and only a genuine measure survives
@@ -52,6 +88,13 @@ def run(ctx):
                                       'the number of records / options visited is not bounded by the packet length' % (at, text), site=at, config=cfg)
                 else:
                     ok = info is not None and info['kind'] == 'const'
+                    if info is not None and info['kind'] == 'slice-iter':
+                        # one iteration per element of a slice: a constant bound if every caller hands over a slice of bounded length
+                        bound = _slice_arg_bound(facts, key)
+                        if bound is not None:
+                            ok = True
+                            info = dict(info, kind='const', iters=bound, text='one iteration per element of a slice of at most %d bytes (bound of the slice at every call site)' % bound)
+                            text = info['text']
                     walkers.append((key, at, info))
                     ctx.instance('C18.walkers', '%s loop at %s: measure %s; %s' % (key.split('::')[-1], at, measure, text), ok=ok, site=at)
                     if not ok:
@@ -65,8 +108,13 @@ def run(ctx):
         # walker invocations per record: no loop in the per-record functions, and a constant number of call sites
         per_record = [DS + '::parse_rr', DS + '::parse_question', DS + '::skip_name', DS + '::edns_skip_rr']
         calls = 0
+        extra_entries = []
         for key in per_record:
             f = facts.fn(key)
+            if f is None and key.endswith('::edns_skip_rr') and facts.fn(DS + '::parse_opt') is not None:
+                # the tiny option-skipping helper has been folded into the option loop: its callees are classified from there
+                extra_entries.append(DS + '::parse_opt')
+                continue
             if f is None:
                 ctx.missing('C18.calls', key)
                 continue
@@ -83,7 +131,7 @@ def run(ctx):
         with open(_os.path.join(F.VERIF, 'tables', 'extern_cost.json')) as fh:
             ctab = _json.load(fh)
         walkers_ = ('compress::Compress::check_compressed_name', DS + '::check_uncompressed_name')
-        seen_, ext_, ind_, par_ = facts.reach([k for k in per_record if facts.fn(k) is not None], avoid=walkers_)
+        seen_, ext_, ind_, par_ = facts.reach([k for k in per_record if facts.fn(k) is not None] + extra_entries, avoid=walkers_)
         for p_ in sorted(ext_):
             okc = p_ in ctab['constant'] or p_.startswith(tuple(ctab.get('constant_prefix', [])))
             ctx.instance('C18.calls', 'per-record work calls %s: %s' % (p_, ctab['constant'].get(p_, 'not in tables/extern_cost.json')), ok=okc)
